@@ -232,3 +232,53 @@ func GlobalCaptureNames(p *Program, nodes []Node) []string {
 	}
 	return out
 }
+
+// CollideNames renames one named loop to the name of a capture of the same body (a name may be bound to a
+// string by a capture and to a map by a loop in turn; back-references and `with` items then meet either).
+// Returns false when the body has no capture or no named loop.
+func CollideNames(r *Rng, body []Node) ([]Node, bool) {
+	caps, loops := CaptureNames(body), LoopNames(body)
+	var usable []string
+	for _, c := range caps {
+		if c[0] != '_' {
+			usable = append(usable, c)
+		}
+	}
+	if len(usable) == 0 || len(loops) == 0 {
+		return body, false
+	}
+	from := loops[r.Intn(len(loops))]
+	to := usable[r.Intn(len(usable))]
+	var ren func(n Node) Node
+	renAll := func(ns []Node) []Node {
+		out := make([]Node, len(ns))
+		for i, n := range ns {
+			out[i] = ren(n)
+		}
+		return out
+	}
+	ren = func(n Node) Node {
+		switch x := n.(type) {
+		case Loop:
+			x.Body = ren(x.Body)
+			if x.Name == from {
+				x.Name = to
+			}
+			return x
+		case Seq:
+			x.Items = renAll(x.Items)
+			return x
+		case Or:
+			x.Alts = renAll(x.Alts)
+			return x
+		case Capture:
+			x.Body = ren(x.Body)
+			return x
+		case SubDef:
+			x.Body = renAll(x.Body)
+			return x
+		}
+		return n
+	}
+	return renAll(body), true
+}
